@@ -152,6 +152,7 @@ class Scenario:
     keeper_max_keep: int | None = None
     fixed_interval: float | None = None   # FixedIntervalInteraction.with_sleep_adjustor(agent, env, interval, offset)
     interval_offset: float = 0.0
+    lazy_points: list = field(default_factory=list)   # e.g. ["clock_resume"]: the control thread dawdles there
     swap_env: bool = False                # the environment is put in place after the Interaction was constructed
     train_clock_sleep: float = 0.0        # every training run sleeps this long on the *system* clock (pamiq_core.time.sleep)
     archive_states: bool = False      # somebody moves the oldest state directory away after every runtime save
@@ -195,6 +196,7 @@ class Harness:
         self.sc = scenario
         self.sched = Sched(schedule, seed=seed, timed=scenario.timed, budget=scenario.budget)
         self.sched.interrupt_at = scenario.interrupt_at
+        self.sched.lazy = set(scenario.lazy_points or [])
 
         def disarm(ev: tuple) -> None:
             # an interrupt is only delivered inside the control loop, not inside the `finally`
